@@ -87,8 +87,8 @@ func New(o Options) *World {
 }
 
 func (w *World) PeerAddr(i int) *net.UDPAddr { return w.Peers[i].Addr() }
-func (w *World) PeerIP(i int) string        { return w.Blk.IP(2 + i).String() }
-func (w *World) UPFAddr() *net.UDPAddr      { return &net.UDPAddr{IP: w.Blk.IP(1), Port: 8805} }
+func (w *World) PeerIP(i int) string         { return w.Blk.IP(2 + i).String() }
+func (w *World) UPFAddr() *net.UDPAddr       { return &net.UDPAddr{IP: w.Blk.IP(1), Port: 8805} }
 
 // Collect waits for the PFCP loop to go idle and gathers what it emitted (used by worlds that have further
 // goroutines to settle).
